@@ -43,6 +43,28 @@ FILES = {
     'crates/trippy-tui/src/app.rs': ['C03', 'C16'],
 }
 
+# the glue covered since the ninth wave (MUT_SET=glue)
+FILES_GLUE = {
+    'crates/trippy-tui/src/report/table.rs': ['C10', 'C05'],
+    'crates/trippy-tui/src/report/csv.rs': ['C10', 'C05'],
+    'crates/trippy-tui/src/report/json.rs': ['C10', 'C05'],
+    'crates/trippy-tui/src/report/types.rs': ['C10', 'C05'],
+    'crates/trippy-tui/src/config/theme.rs': ['C16'],
+    'crates/trippy-tui/src/config/binding.rs': ['C16'],
+    'crates/trippy-tui/src/config/file.rs': ['C16'],
+    'crates/trippy-tui/src/geoip.rs': ['C18'],
+    'crates/trippy-tui/src/frontend/render/world.rs': ['C18', 'C17'],
+    'crates/trippy-core/src/net/platform/unix.rs': ['C09', 'C16'],
+    'crates/trippy-core/src/net/source.rs': ['C09', 'C16'],
+    'crates/trippy-core/src/error.rs': ['C09'],
+    'crates/trippy-privilege/src/lib.rs': ['C16'],
+    'crates/trippy-core/src/types.rs': ['C17', 'C06'],
+    'crates/trippy-dns/src/lazy_resolver.rs': ['C17', 'C18'],
+    'crates/trippy-packet/src/lib.rs': ['C02', 'C12'],
+}
+if os.environ.get('MUT_SET') == 'glue':
+    FILES = FILES_GLUE
+
 OPS = [
     ('rel', r' <= ', ' < '), ('rel', r' < ', ' <= '), ('rel', r' >= ', ' > '), ('rel', r' > ', ' >= '),
     ('eq', r' == ', ' != '), ('eq', r' != ', ' == '),
